@@ -37,8 +37,139 @@ def func_body(pp, name):
 
 def evalmask(expr):
     expr = re.sub(r'(0x[0-9A-Fa-f]+|\d+)U', r'\1', expr).replace('(', ' ').replace(')', ' ')
+    expr = ' '.join(expr.split())
     if not re.fullmatch(r'[0-9A-Fa-fx\s|]+', expr): die("unexpected mask expression: " + expr)
-    return eval(expr) & 0xFFFF
+    try: return eval(expr) & 0xFFFF
+    except Exception: die("unexpected mask expression: " + expr)
+
+
+# ---- robustness to harmless rewrites of _advance_parsing (renamed locals, local mask constants, reordered case blocks) ----
+ROLE_DECLS = [   # (canonical name, regex on the function text that finds the current name by its declaration)
+    ('state',          r'binson_state\s*\*\s*(\w+)\s*='),
+    ('next_state',     r'\buint16_t\s+(\w+)\s*;'),
+    ('bytes_consumed', r'\bsize_t\s+(\w+)\s*=\s*0\s*;'),
+    ('proceed',        r'\b_Bool\s+(\w+)\s*=\s*1\s*;'),
+    ('consumed',       r'\bbbuf\s+(\w+)\s*;'),
+]
+def canonical_names(func_text, body):
+    """alpha-rename parameters (by position) and the loop's locals (by declared type) to the names the atom patterns use"""
+    m = re.match(r'static\s+_Bool\s+_advance_parsing\s*\(\s*binson_parser\s*\*\s*(\w+)\s*,\s*uint8_t\s+(\w+)\s*,\s*bbuf\s*\*\s*(\w+)\s*\)', func_text)
+    if not m: die("_advance_parsing: unexpected signature")
+    ren = {m.group(1): 'parser', m.group(2): 'scan_flags', m.group(3): 'scan_name'}
+    for canon, rx in ROLE_DECLS:
+        found = re.findall(rx, body)
+        if len(found) == 1: ren[found[0]] = canon        # ambiguous or absent: leave the names as they are
+    # apply simultaneously, whole identifiers only (not struct members after . or ->)
+    if all(k == v for k, v in ren.items()): return body
+    if len(set(ren.values())) != len(ren): die("_advance_parsing: renaming is not injective")
+    def sub(mm):
+        w = mm.group(2)
+        return mm.group(1) + (ren[w] if (w in ren and mm.group(1) == '') else w)
+    return re.sub(r'(->|\.)?\b([A-Za-z_]\w*)\b', lambda mm: (mm.group(1) or '') + (ren.get(mm.group(2), mm.group(2)) if not mm.group(1) else mm.group(2)), body)
+
+def subst_local_consts(body):
+    """`const <int type> NAME = <mask expression>;` locals are substituted where they are used"""
+    for m in list(re.finditer(r'\bconst\s+(?:uint8_t|uint16_t|uint_fast8_t|unsigned|unsigned\s+int|int)\s+(\w+)\s*=\s*([^;{}]+);', body)):
+        name, expr = m.group(1), m.group(2)
+        if not re.fullmatch(r'[0-9A-Fa-fxU\s|()]+', expr): continue
+        body = body[:m.start()] + ' ' * (m.end() - m.start()) + re.sub(r'\b%s\b' % re.escape(name), '(' + expr.strip() + ')', body[m.end():])
+    return body
+
+
+KNOWN_CALLEES = {'_consume', '_process_one', '_cmp_name', '_parse_integer', '_check_boundary', '_advance_parsing',
+                 'memset', 'memcmp', 'memmove', 'memcpy', 'strlen', 'sizeof', 'if', 'while', 'switch', 'for', 'return'}
+def inline_new_helpers(pp, body, depth=0):
+    """a `static` helper of this file that _advance_parsing calls and that is not one of the callees the model knows
+    (an "extract function" refactoring) is expanded in place: parameters renamed to the argument names, its own
+    `return`s dropped - so that moving a few lines into a helper does not change the skeleton"""
+    if depth > 2: return body
+    def expand(m):
+        name = m.group(1)
+        if name in KNOWN_CALLEES or name.startswith('binson_'): return m.group(0)
+        d = re.search(r'static\s+[\w\s\*]+?\b%s\s*\(([^;{}]*)\)\s*\{' % re.escape(name), pp)
+        if not d: return m.group(0)
+        hb = func_body(pp[d.start():], name)
+        params = [re.sub(r'.*?(\w+)\s*$', r'\1', x.strip()) for x in d.group(1).split(',') if x.strip() and x.strip() != 'void']
+        # arguments of this call (no nested commas expected for such helpers)
+        j = m.end(); k = j; dpt = 1
+        while k < len(body) and dpt:
+            if body[k] == '(': dpt += 1
+            elif body[k] == ')': dpt -= 1
+            k += 1
+        args = [a.strip() for a in body[j:k - 1].split(',')] if body[j:k - 1].strip() else []
+        if len(args) != len(params) or not all(re.fullmatch(r'&?\w+', a) for a in args): return m.group(0)
+        ren = dict(zip(params, [a.lstrip('&') for a in args]))
+        hb = re.sub(r'(->|\.)?\b([A-Za-z_]\w*)\b', lambda mm: (mm.group(1) or '') + (ren.get(mm.group(2), mm.group(2)) if not mm.group(1) else mm.group(2)), hb)
+        hb = re.sub(r'\breturn\b[^;]*;', ';', hb)
+        expand.spans.append((m.start(), k, inline_new_helpers(pp, hb[:-1] if hb.endswith('}') else hb, depth + 1)))
+        return m.group(0)
+    expand.spans = []
+    for m in re.finditer(r'(?<![\w>.])(_\w+)\s*\(', body): expand(m)
+    out = body
+    for a, b, text in sorted(expand.spans, reverse=True):
+        out = out[:a] + '{' + text + '}' + out[b:]
+    return out
+
+def match_brace(text, i):
+    depth = 0
+    while i < len(text):
+        if text[i] == '{': depth += 1
+        elif text[i] == '}':
+            depth -= 1
+            if depth == 0: return i
+        i += 1
+    die("unbalanced braces in _advance_parsing")
+
+def canonical_case_order(body, found):
+    """atoms in source order, except that the case blocks of each `switch` are put in ascending order of their labels -
+    only when every block of that switch ends in break/return (so the order of the blocks cannot matter)"""
+    switches = []
+    for m in re.finditer(r'\bswitch\s*\(', body):
+        j = body.index('{', m.end()); k = match_brace(body, j)
+        switches.append((j, k))
+    out = []; pos = 0
+    def emit_range(a, b): out.extend(x for p, x in found if a <= p < b)
+    for (j, k) in switches:
+        if j < pos: die("nested switch in _advance_parsing")       # not expected; keep it loud
+        emit_range(pos, j)
+        # labels at depth 1 of this switch block
+        labels = []; depth = 0; i = j
+        for mm in re.finditer(r'[{}]|\bcase\b[^:;{}]*:|\bdefault\s*:', body[j:k + 1]):
+            t = mm.group(0)
+            if t == '{': depth += 1
+            elif t == '}': depth -= 1
+            elif depth == 1: labels.append((j + mm.start(), j + mm.end()))
+        if not labels:
+            emit_range(j, k + 1); pos = k + 1; continue
+        # group consecutive labels that share a block
+        groups = []; cur = [labels[0]]
+        for prev, nxt in zip(labels, labels[1:]):
+            between = body[prev[1]:nxt[0]]
+            if between.strip() == '': cur.append(nxt)
+            else: groups.append(cur); cur = [nxt]
+        groups.append(cur)
+        spans = []
+        for gi, g in enumerate(groups):
+            start = g[0][0]; end = groups[gi + 1][0][0] if gi + 1 < len(groups) else k
+            block = body[g[-1][1]:end].strip()
+            closed = re.search(r'(break\s*;|return[^;]*;)\s*}*\s*$', block) is not None
+            vals = sorted(x[1] for p, x in found if start <= p < g[-1][1] and x[0] == 'case')
+            spans.append((start, end, closed, vals))
+        emit_range(j, spans[0][0])
+        if all(c for _, _, c, _ in spans[:-1]):
+            order = sorted(range(len(spans)), key=lambda i: (spans[i][3][0] if spans[i][3] else 1 << 30))
+        else:
+            order = list(range(len(spans)))
+        for i in order:
+            a, b, _, vals = spans[i]
+            # labels of a group in ascending order, then the atoms of the block
+            inside = [(p, x) for p, x in found if a <= p < b]
+            lab = sorted([x for p, x in inside if x[0] == 'case' and p < groups[i][-1][1]], key=lambda x: x[1])
+            rest = [x for p, x in inside if not (x[0] == 'case' and p < groups[i][-1][1])]
+            out.extend(lab + rest)
+        pos = k
+    emit_range(pos, len(body) + 1)
+    return out
 
 def main():
     repo, outdir = sys.argv[1], sys.argv[2]
@@ -70,13 +201,19 @@ def main():
     if len(defs) != 1: die("_advance_parsing definition not found exactly once")
     body = func_body(pp[defs[0]:], '_advance_parsing')
 
-    atoms = []
+    body = inline_new_helpers(pp, body)
+    body = canonical_names(pp[defs[0]:], body)
+    body = subst_local_consts(body)
+    # macro and hand-expanded spellings of the mask tests/clears look the same after this
+    body = re.sub(r'(?<!switch)(?<!switch )(?<!while)(?<!while )(?<!if)(?<!if )\(\s*(scan_flags|state->flags|next_state)\s*\)', r'\1', body)
+    body = re.sub(r'\(\s*(?:uint8_t|uint16_t|uint_fast8_t|unsigned|unsigned\s+int)\s*\)\s*(?=~)', '', body)
+    found = []   # (position, atom)
     pat = re.compile(
         r'(?P<case>case\s*\((?P<casev>0x[0-9A-Fa-f]+)U\)\s*:)'
-        r'|(?P<chks>\(\(\(scan_flags\)\s*&\s*\((?P<chksv>[^;{}]*?)\)\)\s*>\s*0\))'
-        r'|(?P<clrs>\(\(scan_flags\)\s*&=\s*\(~\((?P<clrsv>[^;{}]*?)\)\)\))'
-        r'|(?P<chkf>\(\(\(state->flags\)\s*&\s*\((?P<chkfv>[^;{}]*?)\)\)\s*>\s*0\))'
-        r'|(?P<chkn>\(\(\(next_state\)\s*&\s*\((?P<chknv>[^;{}]*?)\)\)\s*>\s*0\))'
+        r'|(?P<chks>\(\s*scan_flags\s*&\s*(?P<chksv>[0-9A-Fa-fxU\s|()]+?)\)\s*(?:>|!=)\s*0U?\b)'
+        r'|(?P<clrs>scan_flags\s*&=\s*\(?\s*~\s*(?P<clrsv>[0-9A-Fa-fxU\s|()]+?)\s*\)*\s*;)'
+        r'|(?P<chkf>\(\s*state->flags\s*&\s*(?P<chkfv>[0-9A-Fa-fxU\s|()]+?)\)\s*(?:>|!=)\s*0U?\b)'
+        r'|(?P<chkn>\(\s*next_state\s*&\s*(?P<chknv>[0-9A-Fa-fxU\s|()]+?)\)\s*(?:>|!=)\s*0U?\b)'
         r'|(?P<setf>state->flags\s*=\s*\((?P<setfv>0x[0-9A-Fa-f]+)U\)\s*;)'
         r'|(?P<eqf>state->flags\s*==\s*\((?P<eqfv>0x[0-9A-Fa-f]+)U\))'
         r'|(?P<err>parser->error_flags\s*=\s*(?P<errv>BINSON_ERROR_\w+)\s*;)'
@@ -89,24 +226,26 @@ def main():
         r'|(?P<cb>parser->cb\(parser,\s*next_state,\s*parser->cb_context\)\s*;)'
         r'|(?P<wipe>memset\(parser->current_state,\s*0x00,\s*sizeof\(binson_state\)\)\s*;)')
     for m in pat.finditer(body):
-        if m.group('case'): atoms.append(('case', int(m.group('casev'), 16)))
-        elif m.group('chks'): atoms.append(('chk_scan', evalmask(m.group('chksv'))))
-        elif m.group('clrs'): atoms.append(('clr_scan', evalmask(m.group('clrsv'))))
-        elif m.group('chkf'): atoms.append(('chk_flags', evalmask(m.group('chkfv'))))
-        elif m.group('chkn'): atoms.append(('chk_next', evalmask(m.group('chknv'))))
-        elif m.group('setf'): atoms.append(('set_flags', int(m.group('setfv'), 16)))
-        elif m.group('eqf'): atoms.append(('eq_flags', int(m.group('eqfv'), 16)))
+        if m.group('case'): a = ('case', int(m.group('casev'), 16))
+        elif m.group('chks'): a = ('chk_scan', evalmask(m.group('chksv')))
+        elif m.group('clrs'): a = ('clr_scan', evalmask(m.group('clrsv')))
+        elif m.group('chkf'): a = ('chk_flags', evalmask(m.group('chkfv')))
+        elif m.group('chkn'): a = ('chk_next', evalmask(m.group('chknv')))
+        elif m.group('setf'): a = ('set_flags', int(m.group('setfv'), 16))
+        elif m.group('eqf'): a = ('eq_flags', int(m.group('eqfv'), 16))
         elif m.group('err'):
             if m.group('errv') not in errs: die("unknown error code " + m.group('errv'))
-            atoms.append(('err', errs.index(m.group('errv'))))
-        elif m.group('ns'): atoms.append(('next_state', int(m.group('nsv'), 16)))
-        elif m.group('used'): atoms.append(('used_' + ('add' if m.group('usedop') == '+=' else 'sub') + '_' + m.group('usedv'), 0))
-        elif m.group('ad'): atoms.append(('ad_' + ('inc' if m.group('adop') == '++' else 'dec'), 0))
-        elif m.group('dp'): atoms.append(('depth_' + ('inc' if m.group('dpop') == '++' else 'dec'), 0))
-        elif m.group('ret'): atoms.append(('return', int(m.group('retv'))))
-        elif m.group('proc'): atoms.append(('proceed', int(m.group('procv'))))
-        elif m.group('cb'): atoms.append(('callback', 0))
-        elif m.group('wipe'): atoms.append(('wipe_level', 0))
+            a = ('err', errs.index(m.group('errv')))
+        elif m.group('ns'): a = ('next_state', int(m.group('nsv'), 16))
+        elif m.group('used'): a = ('used_' + ('add' if m.group('usedop') == '+=' else 'sub') + '_' + m.group('usedv'), 0)
+        elif m.group('ad'): a = ('ad_' + ('inc' if m.group('adop') == '++' else 'dec'), 0)
+        elif m.group('dp'): a = ('depth_' + ('inc' if m.group('dpop') == '++' else 'dec'), 0)
+        elif m.group('ret'): a = ('return', int(m.group('retv')))
+        elif m.group('proc'): a = ('proceed', int(m.group('procv')))
+        elif m.group('cb'): a = ('callback', 0)
+        else: a = ('wipe_level', 0)
+        found.append((m.start(), a))
+    atoms = canonical_case_order(body, found)
     if sum(1 for a in atoms if a[0] == 'chk_scan') < 5: die("fewer than 5 scan_flags tests found in _advance_parsing")
 
     # which flag each public entry point passes to _advance_parsing
